@@ -12,7 +12,8 @@ def register(prop, J):
               "input that is not a valid encoding (contains a delimiter / was actually changed); distinct by (entry, input); (d) HTTP: the wire request of a generated valid call under 1-2 mutations of path, query, "
               "body, Rest.li / tunnelling headers or verb against the generated server (never 5xx, no stack trace, no resource code "
               "behind a 4xx); the wire response of a valid call under mutations of body, id / version / error headers and status "
-              "served to the generated client (an error, never a panic)",
+              "served to the generated client (an error, never a panic); (e) thorough tier: native coverage-guided fuzzing "
+              "(go test -fuzz) over (bytes, entry point, shape) seeded with the hostile constants and valid encodings of corpus values",
          jobs=[
              J("hostile-v2", "v2", "codecprops", "^TestC04", checks=(20000, 1000000), shards=(4, 16), prepare="prepare_codec",
                extra_pkgs=["dyn", "gendrv"], timeout=(900, 3000)),
@@ -21,10 +22,15 @@ def register(prop, J):
              # (appended after the v2 jobs: the position of a job determines its derived seeds)
              J("hostile-v1", "v1", "codecprops", "^TestC04", checks=(12000, 500000), shards=(4, 16), prepare="prepare_codec",
                extra_pkgs=["dyn", "gendrv"], timeout=(900, 3000)),
+             # native coverage-guided fuzzing (thorough tier only; a campaign cannot be pinned to a seed)
+             J("fuzz-v2", "v2", "codecprops", "^$", tiers=("thorough",), shards=(1, 1), prepare="prepare_codec",
+               extra_pkgs=["dyn", "gendrv"], timeout=(900, 1200), opts={"fuzz": "FuzzC04Decode", "fuzztime": (0, 240)}),
+             J("fuzz-v1", "v1", "codecprops", "^$", tiers=("thorough",), shards=(1, 1), prepare="prepare_codec",
+               extra_pkgs=["dyn", "gendrv"], timeout=(900, 1200), opts={"fuzz": "FuzzC04Decode", "fuzztime": (0, 120)}),
          ],
          level_text="every decoder call runs under panic capture and a watchdog (30 s without progress = hang): the oracle is 'returns a "
                     "value or an error'; complete enumeration of short delimiter strings plus generated mutations of valid documents",
          level_note="a mutated request may still be valid: then a 2xx with exactly one invocation is accepted; only 5xx, crashes, stack "
                     "traces and invocations behind a 4xx are violations",
-         technique="exhaustive enumeration + mutation-based property testing (rapid) with a crash / hang oracle",
+         technique="exhaustive enumeration + mutation-based property testing (rapid) + native coverage-guided fuzzing (thorough tier) with a crash / hang oracle",
          design_ref="2/C04")
